@@ -46,7 +46,7 @@ class LockstepReader:
             raise FuelExhausted("more than %d reader operations" % self.fuel)
         if can_fail and self.fail_at is not None and self.counter[0] >= self.fail_at:
             self.fail_at = None
-            raise InjectedFault("injected reader fault at call %d (%s)" % (self.fail_at, name))
+            raise InjectedFault("injected reader fault at call %d (%s)" % (self.counter[0], name))
 
     def _compare(self, name, args, ro, mo):
         if len(self.trace) < 400:
